@@ -606,9 +606,10 @@ package ast
 // every item appended to the path is the field the exact-name lookup just found - its identifier is that
 // field's NAME (not merely the text of the path as written) and its type that field's type.
 //@ func (*Builder).MakePath
-//@   property C17
+//@   property C17 C04
 //@   traced
 //@   modifies nothing
+//@   ensures  nonempty: result.1 == nil ==> len(result.0) >= 1
 //@   loop 0:
 //@     invariant len: len(path) == $i + 1 && (base(path) == 0 || fresh(path))
 //@     invariant item: $i >= 0 ==> path[$i].Identifier == lastres("ast.StructType.FieldByName", 0).Name && path[$i].Type == lastres("ast.StructType.FieldByName", 0).Type
